@@ -44,7 +44,7 @@ echo "== existing tests of touched packages"
 PKGS=$(git diff --name-only | xargs -n1 dirname | sort -u | sed 's|^|./|')
 rm $CW/$LOC/zz_seed_demo_test.go
 if echo "$PKGS" | grep -qx "./."; then
-  timeout 1500 go test -count=1 -timeout 20m . 2>&1 | tail -3; EX=${PIPESTATUS[0]}
+  timeout 1500 go test -count=1 -timeout 20m . 2>&1 | grep -e "^--- FAIL" -e "^ok" -e "^FAIL" | tail -8; EX=${PIPESTATUS[0]}
 else
   go test -count=1 $PKGS 2>&1 | tail -3; EX=${PIPESTATUS[0]}
 fi
